@@ -219,8 +219,62 @@ def r_wrap(P, chk):
         if not okw:
             chk.violation(rid, "W4:nowrite:%s" % name, to_file.where(),
                           "mmd_engine_convert_to_file writes nothing for %s" % name)
+    # W6: exporting mutates the token tree (types retyped, notes marked used), so every export is preceded by a
+    # fresh parse in the same function: otherwise a second conversion on one engine differs from the first
+    n_exp = 0
+    for g in P.all_funcs:
+        if not P.first_party(g) or g.name == "mmd_engine_export_token_tree":
+            continue
+        for c in g.calls("mmd_engine_export_token_tree"):
+            n_exp += 1
+            parses = [q for q in g.calls() if q.get("callee") in ("mmd_engine_parse_string", "mmd_engine_parse_substring")
+                      and key(q["c"][1]) == key(c["c"][2])]
+            ok = any(g.cfg.dominates(q["i"], c["i"]) for q in parses)
+            chk.obligation(rid, "W6 %s %s: the export is dominated by an unconditional (re)parse of the same engine" % (g.where(c), g.name), ok)
+            if not ok:
+                chk.violation(rid, "W6:%s" % g.name, g.where(c), "%s can export an engine's token tree without parsing it again first "
+                              "(parse missing or conditional): the tree was mutated by the previous export, so repeated conversions on "
+                              "one engine and the other entry points no longer agree" % g.name)
+    chk.floor(rid, n_exp, 2, "callers of mmd_engine_export_token_tree")
     # W5 CLI
     main = P.func("main", "main.c")
+    # POSIX dirname() may truncate its argument in place: the output file name must be derived before it
+    for d in main.calls("dirname"):
+        k = key(d["c"][1])
+        pos = main.cfg.positions()
+        if d["i"] not in pos:
+            continue
+        # forward reachability within the same loop iteration
+        loop_heads = set()
+        for a in main.ancestors(d):
+            if a["k"] in ("ForStmt", "WhileStmt", "DoStmt"):
+                cond = a["c"][1] if a["k"] in ("ForStmt", "DoStmt") else a["c"][0]
+                if cond is not None and cond.get("i") in pos:
+                    loop_heads.add(pos[cond["i"]][0])
+                break
+        seen = set()
+        st = list(main.cfg.blocks[pos[d["i"]][0]].rsucc)
+        later = []
+        for e in main.cfg.blocks[pos[d["i"]][0]].el[pos[d["i"]][1] + 1:]:
+            n = main.nodes.get(e)
+            if n is not None and n["k"] == "CallExpr":
+                later.append(n)
+        while st:
+            b = st.pop()
+            if b in seen or b in loop_heads:
+                continue
+            seen.add(b)
+            for e in main.cfg.blocks[b].el:
+                n = main.nodes.get(e) if e >= 0 else None
+                if n is not None and n["k"] == "CallExpr":
+                    later.append(n)
+            st.extend(main.cfg.blocks[b].rsucc)
+        bad = [n for n in later if n.get("callee") in ("filename_with_extension", "scan_file", "realpath", "fopen")
+               and any(key(a) == k for a in n["c"][1:])]
+        chk.obligation(rid, "W5 %s: dirname(%s) runs after the file name was used to read the input / name the output" % (main.where(d), k), not bad)
+        for n in bad:
+            chk.violation(rid, "W5:dirname:%s" % n.get("callee"), main.where(n), "main calls %s(%s) after dirname(%s): dirname may "
+                          "truncate the path in place, so the batch output file name is derived from the directory" % (n.get("callee"), k, k))
     conv = [c for c in main.calls() if (c.get("callee") or "").startswith("mmd_") and "convert" in c.get("callee")
             and "opml_to_text" not in c.get("callee") and "itmz_to_text" not in c.get("callee")]
     okm = bool(conv) and all(c.get("callee") == "mmd_d_string_convert_to_data" for c in conv)
